@@ -2,10 +2,11 @@ package main
 
 import (
 	"fmt"
-	"os"
 	"go/ast"
 	"go/token"
 	"go/types"
+	"golang.org/x/tools/go/cfg"
+	"os"
 )
 
 func init() {
@@ -467,6 +468,10 @@ func checkFECDecode(p *Prog, r *Report, fi *FuncInfo) {
 						okC = true
 					}
 				}
+				isMaxForm := false
+				if x, okM := p.runningMax(fi, a.Node, tVar(maxlen), a.Rhs); okM && rt.Op == "max" {
+					okC, rt, isMaxForm = true, x, true
+				}
 				// rt = len(pkt.data()) where shards[..] = pkt.data() for the same pkt in the same loop
 				okSrc := rt.Op == "len" && rt.Args[0].Op == "call" && rt.Args[0].Obj == p.Method("fecPacket", "data")
 				sameLoop := false
@@ -480,7 +485,7 @@ func checkFECDecode(p *Prog, r *Report, fi *FuncInfo) {
 							base[ct.Key()] = true
 						}
 						for _, ct := range c.DominatingConds(pt) {
-							if !base[ct.Key()] && ct.Key() != lt(tVar(maxlen), rt).Key() {
+							if !base[ct.Key()] && (isMaxForm || ct.Key() != lt(tVar(maxlen), rt).Key()) {
 								sameLoop = false
 							}
 						}
@@ -649,7 +654,7 @@ func checkFECDecode(p *Prog, r *Report, fi *FuncInfo) {
 			if !isIf {
 				return true
 			}
-			t := p.ExpandHelpers(p.Term(is.Cond))
+			t := p.ExpandHelpers(p.resolveSingleDefs(dfi, p.Term(is.Cond)))
 			if os.Getenv("KCPVERIF_DEBUG") != "" {
 				fmt.Fprintln(os.Stderr, "discard cond:", t.Key())
 			}
@@ -884,13 +889,8 @@ func checkFECEncode(p *Prog, r *Report, fi *FuncInfo) {
 				}
 				continue
 			}
-			if t.Key() == mk("len", b).Key() {
-				for _, ct := range c.DominatingConds(pt) {
-					rct := p.FactsOf(fi).AtNode(st.Node).Resolve(ct)
-					if rct.Key() == lt(maxSize, mk("len", b)).Key() {
-						okMax = true
-					}
-				}
+			if x, okM := p.runningMax(fi, st.Node, maxSize, st.Rhs); okM && x.Key() == mk("len", b).Key() {
+				okMax = true
 				continue
 			}
 			okMax = false
@@ -1073,6 +1073,39 @@ func checkFECSession(p *Prog, r *Report) {
 				okLen := fs.Holds(le(tConst(2), mk("len", rv)))
 				ok = okDef && okLo && okHi && okLen
 				why = fmt.Sprintf("sz = Uint16(r): %v; sz >= 2: %v; sz <= len(r): %v; len(r) >= 2: %v; facts: %s", okDef, okLo, okHi, okLen, pretty(fs.String()))
+				// exactness: inside the loop nothing stronger may stand between a recovered packet and
+				// the core. A reconstructed shard is as long as the group's longest packet, so for that
+				// packet sz == len(r); lower bounds up to a KCP header plus the prefix exclude nothing real.
+				if ok {
+					maxLo := p.ConstInt("IKCP_OVERHEAD") + 2
+					for _, ca := range c.DominatingCondsAt(pt) {
+						if !nodeWithin(p, lastNode(ca.B), rs.Body) {
+							continue
+						}
+						for _, a := range Conjuncts(ca.T) {
+							a = stripConvs(fs.Resolve(a))
+							szR := stripConvs(fs.Resolve(sz))
+							lenR := mk("len", rv)
+							switch {
+							case (a.Op == "<=" || a.Op == "<") && a.Args[0].IsConst() && (a.Args[1].Key() == szR.Key() || a.Args[1].Key() == lenR.Key()):
+								lo := a.Args[0].Int
+								if a.Op == "<" {
+									lo++
+								}
+								if lo > maxLo {
+									ok, why = false, fmt.Sprintf("recovered packets shorter than %d bytes are refused", lo)
+								}
+							case a.Op == "<=" && a.Args[0].Key() == szR.Key() && a.Args[1].Key() == lenR.Key():
+							case a.Op == "<" && a.Args[0].Key() == szR.Key() && a.Args[1].Key() == lenR.Key():
+								ok, why = false, "the test is sz < len(r): the longest packet of every group (sz == len(r) after reconstruction) is refused and never reaches the core"
+							default:
+								if a.Contains(szR) || a.Contains(rv) {
+									ok, why = false, "recovered packets are additionally filtered by "+pretty(a.Key())+", which genuine packets need not satisfy"
+								}
+							}
+						}
+					}
+				}
 			}
 			r.check(ok, "C07.F3", fi.Name, p.Pos(s.Call), "kcp.Input("+exprString(s.Call.Args[0])+", FEC)", "r[2:sz] under len(r) >= 2, 2 <= sz <= len(r)", why+": a recovered packet is delivered with padding bytes, with the wrong length, or the slice expression panics on a forged size")
 			continue
@@ -1106,4 +1139,11 @@ func checkFECSession(p *Prog, r *Report) {
 	if nData == 0 {
 		r.bad("C07.F8", fi.Name, p.Pos(fi.Node), "direct input of data packets", "no KCP.Input of a received data packet precedes decode", "")
 	}
+}
+
+func lastNode(b *cfg.Block) ast.Node {
+	if len(b.Nodes) == 0 {
+		return nil
+	}
+	return b.Nodes[len(b.Nodes)-1]
 }
